@@ -215,22 +215,23 @@ def pat_ctor(p):
 
 
 def pat_binds(p):
+    """binding names in source order"""
     out = []
-    stack = [p]
-    while stack:
-        x = stack.pop()
+
+    def rec(x):
         if not isinstance(x, dict):
-            continue
+            return
         if x.get("k") == "bind":
             out.append(x["name"])
             if x.get("sub"):
-                stack.append(x["sub"])
+                rec(x["sub"])
         for s in x.get("subs", []) or []:
-            stack.append(s)
+            rec(s)
         for f in x.get("fields", []) or []:
-            stack.append(f[1])
+            rec(f[1])
         if x.get("k") == "guard":
-            stack.append(x.get("sub"))
+            rec(x.get("sub"))
+    rec(p)
     return out
 
 
